@@ -19,7 +19,9 @@ func checkC13(c *Ctx) {
 	c.Rule("C13-R3", "cell payload is written only from drawCell (writeString callers)")
 	c.Rule("C13-R4", "LockRegion(lock) calls LockCell only under lock==true and UnlockCell only under lock==false")
 	c.Rule("C13-R5", "the content-changed tests of CellBuffer do not tell a nil combining list from an empty one (the stored copy is always non-nil): reflect.DeepEqual on combining lists only under a non-zero length guard")
+	c.Rule("C13-R6", "the lock flag of a cell is written only by LockCell (true) and UnlockCell (false); nothing else (invalidation, resize of surviving cells, whole-cell copies) can unlock a cell behind the application's back")
 	c.Expect("C13-R5", 1)
+	c.Expect("C13-R6", 1)
 	c.Expect("C13-R1", 8)
 	c.Expect("C13-R2", 5)
 	c.Expect("C13-R3", 1)
@@ -55,6 +57,25 @@ func checkC13(c *Ctx) {
 	ws := sortedKeys(set)
 	c.Check(len(ws) == 2 && ws[0] == "Beep" && ws[1] == "drawCell", "C13-R3", "writeString:callers", "-", fmt.Sprintf("callers of the raw writer: %v", ws))
 	c13ListCompare(c, p)
+	{
+		ws := map[string]string{}
+		whole := ""
+		for _, fn := range p.modFns {
+			if fn.Pkg != p.Tcell {
+				continue
+			}
+			for _, st := range storesTo(fn, "tcell.cell", "lock") {
+				ws[fn.Name()] = valName(st.Val)
+			}
+			eachInstr(fn, func(in ssa.Instruction) {
+				if st, ok := in.(*ssa.Store); ok && typeName(st.Val.Type()) == "tcell.cell" {
+					whole += fn.Name() + " stores a whole cell at " + p.pos(in.Pos()) + "; "
+				}
+			})
+		}
+		ok := len(ws) == 2 && ws["LockCell"] == "true" && ws["UnlockCell"] == "false" && whole == ""
+		c.Check(ok, "C13-R6", "cell.lock:writers", "-", fmt.Sprintf("stores to cell.lock: %v %s", ws, whole))
+	}
 	// R4
 	lr := p.Fn("tcell:(*baseScreen).LockRegion")
 	if lr == nil {
